@@ -693,12 +693,13 @@ impl Lock {
             let raised = if timer_involved { self.let_time_pass() } else { false };
             let judged = matches!((&obs.step.outcome, &obs.real), (Outcome::Ok(_), RealOutcome::Ok(_)));
             for (k, (a, r, m)) in bad.iter().enumerate() {
-                if located[k] {
-                    continue;
-                }
                 if real_peek(&self.cpu, *a) != self.mem.peek(*a) || (raised && *a == 0xffff82) {
-                    located[k] = true;
-                    self.strays.push((Some(c.clone()), *a, *r, *m, judged));
+                    // attributed to the first case that reproduces it; repaired after every case that
+                    // does (a later case writing the same location must not leave it behind)
+                    if !located[k] {
+                        located[k] = true;
+                        self.strays.push((Some(c.clone()), *a, *r, *m, judged));
+                    }
                     let mv = self.mem.peek(*a).unwrap_or(0);
                     real_poke(&mut self.cpu, *a, mv);
                     if timer_involved {
@@ -713,9 +714,29 @@ impl Lock {
                 }
             }
         }
+        // whatever the re-runs left behind beyond the recorded locations (the list is capped, unjudged
+        // cases may write elsewhere): the machines are aligned once more before the campaign goes on
+        for ri in 0..5 {
+            let src = self.mem.r[ri].clone();
+            let dst = real_region_mut(&mut self.cpu, ri);
+            let m = dst.len().min(src.len());
+            if dst[..m] != src[..m] {
+                dst[..m].copy_from_slice(&src[..m]);
+            }
+        }
+        self.realign_timer_block();
         for (k, (a, r, m)) in bad.iter().enumerate() {
             if !located[k] {
                 self.strays.push((None, *a, *r, *m, true));
+                if let Ok(path) = std::env::var("H8MON_DEBUG_STRAY") {
+                    use std::io::Write;
+                    if let Ok(mut f) = std::fs::OpenOptions::new().create(true).append(true).open(&path) {
+                        let _ = writeln!(f, "# unlocated stray at {:06x}: real {:02x} model {:02x}; ring of {} cases (case counter {})", a, r, m, ring.len(), self.cases);
+                        for (c, act) in &ring {
+                            let _ = writeln!(f, "{:?} {}", act, c.to_line());
+                        }
+                    }
+                }
             }
         }
     }
